@@ -345,6 +345,11 @@ impl SliceRange {
 
         if self.step > 0 {
             IndexRange::new(resolved.start, resolved.end as isize, self.step)
+        } else if resolved.is_empty() {
+            // Nothing is selected, eg. because the start is before the first
+            // element or the dimension is empty. `dim_size - 1 - start` below
+            // would underflow in that case.
+            IndexRange::new(0, 0, self.step)
         } else {
             IndexRange::new(
                 dim_size - 1 - resolved.start,
